@@ -49,6 +49,19 @@ def corpus_specs(ctx):
         "put": {"operationId": "putFollowers", "parameters": [{"name": "id", "in": "path", "required": True, "schema": {"type": "string"}}, {"name": "body", "in": "query", "schema": {"type": "integer"}}],
                 "requestBody": {"required": True, "content": {"application/json": {"schema": {"$ref": "#/components/schemas/Pet"}}}}, "responses": {"204": {"description": "none"}}}}
     out.append(("gen_ops", s))
+    # F18-2: union members (helper constructors convert them EARLY) whose array property has inline object items that are
+    # structurally identical to inline items elsewhere; holders before and after the union member in name order
+    def items_obj():
+        return {"type": "array", "items": {"type": "object", "properties": {"q": {"type": "integer"}}}}
+    for tag, (member, other) in {"a": ("Zed", "Beta"), "b": ("Beta", "Zed"), "c": ("Mid", "Mad")}.items():
+        sh = {"Alpha": {"oneOf": [{"$ref": "#/components/schemas/" + member}, {"$ref": "#/components/schemas/Yak"}]},
+              "Yak": {"type": "object", "properties": {"y": {"type": "string"}}},
+              member: {"type": "object", "properties": {"things": items_obj()}},
+              other: {"type": "object", "properties": {"entries": items_obj()}}}
+        d = ops_spec([{"opid": "getA", "method": "get", "path": "/a", "params": [], "body": None, "responses": [["200", [["application/json", "ref:Alpha"]]]]},
+                      {"opid": "getB", "method": "get", "path": "/b", "params": [], "body": None, "responses": [["200", [["application/json", "ref:" + other]]]]}])
+        d["components"]["schemas"] = sh
+        out.append(("gen_inline_items_" + tag, d))
     # single-feature documents and random documents of the feature grammar (the corpus of C01)
     from checks.c01 import FEATURES
     names = sorted(FEATURES) if not ctx.quick else r.sample(sorted(FEATURES), 8)
@@ -57,6 +70,41 @@ def corpus_specs(ctx):
     import featgen
     for i in range(6 if ctx.quick else 60):
         out.append(("rand_%d" % i, featgen.rand_spec(r)))
+    return out
+
+
+def shapes_of(name, spec):
+    """document shapes around one corpus spec: as it is, without operations (`paths: {}`), operations only under `webhooks`,
+    a path item without operations, and --all-schemas-like corner: components only"""
+    import copy
+    out = [("as-is", spec)]
+    a = copy.deepcopy(spec); a["paths"] = {}; a.pop("webhooks", None); out.append(("no-paths", a))
+    b = copy.deepcopy(spec); b["webhooks"] = {"evt" + str(i): v for i, v in enumerate((spec.get("paths") or {}).values())}; b["paths"] = {}; out.append(("webhooks-only", b))
+    c = copy.deepcopy(spec); c["paths"] = {"/empty": {}}; c.pop("webhooks", None); out.append(("empty-path-item", c))
+    d = copy.deepcopy(spec); d.pop("paths", None); d.pop("webhooks", None); out.append(("paths-absent", d))
+    return out
+
+
+def cli_cases(ctx):
+    r = ctx.rng
+    specs = [x for x in corpus_specs(ctx) if x[0].startswith(("gen_", "petstore"))][:4 if ctx.quick else 12]
+    flagsets = [[], ["--all-schemas"], ["--no-helpers"], ["--enable-builders"], ["--all-headers"], ["--visibility", "crate"], ["--visibility", "file", "--no-helpers", "--enable-builders", "--all-headers"]]
+    out = []
+    keptdir = ctx.scratch("c18kept")
+    for name, spec in specs:
+        for shape, doc in shapes_of(name, spec):
+            fs = flagsets if not ctx.quick else [[]] + r.sample(flagsets[1:], 2)
+            for flags in fs:
+                d = ctx.scratch("c18cli")
+                p = os.path.join(d, "spec.json")
+                json.dump(doc, open(p, "w"))
+                rc1, o1, e1, _ = ctx.run_cli(["generate", "types", "-i", p, "-o", os.path.join(d, "t.rs")] + flags)
+                rc2, o2, e2, _ = ctx.run_cli(["generate", "client-mod", "-i", p, "-o", os.path.join(d, "cm")] + flags)
+                rd = lambda q: open(q, encoding="utf-8", errors="replace").read() if os.path.exists(q) else ""
+                impl = {"rc_types": rc1, "rc_mod": rc2, "types": rd(os.path.join(d, "t.rs")), "mod_types": rd(os.path.join(d, "cm", "types.rs")), "stderr": (e1 + e2)[-300:]}
+                kept = os.path.join(keptdir, "%s_%s.json" % (name, shape))
+                json.dump(doc, open(kept, "w"))
+                out.append({"op": "flags.cli", "in": {"spec_name": name, "shape": shape, "flags": flags, "spec_file": kept}, "impl": impl})
     return out
 
 
@@ -77,7 +125,8 @@ def run(ctx):
                 lat = [LATTICE[0]] + r.sample(LATTICE[1:], 11)
             for cfg in lat:
                 for mode in ("client-mod", "types"):
-                    cases.append({"op": "flags.pair", "in": {"spec_name": name, "spec": spec, "mode": mode, "cfg": cfg, "base_cfg": {}}})
+                    cases.append({"op": "flags.pair", "in": {"spec_name": name, "spec": spec, "mode": mode, "cfg": cfg, "base_cfg": {},
+                                                             "component_names": sorted((spec.get("components", {}).get("schemas", {}) or {}).keys())}})
         specs = {c["in"]["spec_name"]: c["in"]["spec"] for c in cases}
         ctx.prepare = lambda c: c
         B = 40
@@ -88,6 +137,10 @@ def run(ctx):
             ctx.classify(slim, shrink=False, tie="E")
             if len(ctx.violations) >= 3:
                 break
+    # E-cli: the REAL binary — `generate types` against the types.rs of `generate client-mod` under one flag setting
+    # (the in-process runs above never pass through ui/commands/generate.rs, where the modes are told apart)
+    if driver_ok and ctx.build_cli() and len(ctx.violations) < 3:
+        ctx.judge_direct(cli_cases(ctx), tie="E-cli")
     return ctx.finish(
         checker_cmd="lake build Oas3Model.Props.C18 && #print axioms on every theorem" + ("" if ctx.quick else " && leanchecker"),
         trusted_base=vlib.TRUSTED_BASE + ["that the decorations named in Model/Flags.lean are ALL that may differ is measured by the lattice comparison, not proved about the generator", "syn extraction of items, fields, attributes, visibilities"],
